@@ -57,8 +57,10 @@ def ev(t, env):
         return a[0] - a[1]
     if op in ("*", "i*"):
         return a[0] * a[1]
-    if op == "/":
+    if op in ("/", "new"):
         return Fraction(a[0]) / Fraction(a[1])
+    if op == "recip":
+        return 1 / Fraction(a[0])
     if op == "idiv":
         return _floor_div(a[0], a[1])
     if op in ("%", "irem"):
